@@ -22,6 +22,8 @@ LEVEL = {
  "C15": ("DESIGN.md §5 C15", "Seeded search over programs touching three adjacent secondary indexes on a real node; index queries of every kind and the index entries in DB dumps compared with a sorted per-index reference."),
  "C16": ("DESIGN.md §5 C16", "Seeded search over sequence-put programs (multi-put batches, deletes of the maximum, plain puts into the suffix space) with scheduled subscribers on a real node; key arithmetic model plus bounded-liveness check of subscribers."),
  "C17": ("DESIGN.md §5 C17", "Seeded search over write histories with notification subscribers that start, disconnect and resume (also across a restart and new term) on a real node; streams compared per offset with batches derived by the reference model from the committed log."),
+ "C18": ("DESIGN.md §5 C18", "Seeded search over histories of cluster-config changes (namespaces added, removed, re-created at once with another shard count; servers added/removed; coordinator crashes) against the real coordinator, real nodes and real client-library shard managers on the simulated transport; every stored status and every assignment message must partition the hash space, shard ids must never be reused, and settled clients must route sampled keys like the published map."),
+ "C19": ("DESIGN.md §5 C19", "Same config-history engine with labelled servers and namespaces carrying zero to two strict anti-affinity rules; every new or changed ensemble in every stored status is checked for size, distinctness, membership in the cluster configuration, anti-affinity among configured members, and one-member-at-a-time replacement (the real balancer and selectors make the choices)."),
 }
 NOTE = "Trusted base: the simulator (seeded go1.26.8 runtime overlay, synctest bubble clock, simsync mutexes, simulated gRPC transport, disk-durability tracker), the reference model and the oracle code under /verif/sim; Pebble and protobuf are run, not modelled. Findings are relative to the explored seeds/programs."
 checks = []
